@@ -187,6 +187,61 @@ def simulate(L, K, lines):
             touched = [a[0], a[1]]
         elif op in ("junk",):
             pass
+        elif op in ("refassign", "refswap"):
+            d, sv = slots.get(a[0]), slots.get(a[2])
+            if d is None or sv is None or not (0 <= a[1] < len(d.elems)) or not (0 <= a[3] < len(sv.elems)):
+                raise Invalid("reference to a missing element")
+            if [len(f) for f in d.elems[a[1]]] != [len(f) for f in sv.elems[a[3]]]:
+                raise Invalid("references with different field sizes")
+            x, y = d.elems[a[1]], sv.elems[a[3]]
+            if op == "refswap":
+                d.elems[a[1]], sv.elems[a[3]] = y, x
+            else:
+                d.elems[a[1]] = y
+                if a[4] == 2 and not (a[0] == a[2] and a[1] == a[3]):
+                    # moved-from objects of the instrumented type are scribbled with 0xEE
+                    sv.elems[a[3]] = tuple(tuple((238,) * p.size for _ in f) if p.ty == lay.TTRK else f for f, p in zip(y, L))
+            touched = [a[0]] + ([a[2]] if a[2] != a[0] else [])
+        elif op == "write":
+            v = slots.get(a[0])
+            if v is None or not (0 <= a[1] < len(v.elems)) or not (0 <= a[3] < len(v.elems[a[1]][a[2]])):
+                raise Invalid("write to a missing object")
+            k = a[2]
+            if L[k].kind == lay.PLAIN and k + 1 < len(L) and L[k + 1].kind == lay.VARYING:
+                raise Invalid("write to a count field")
+            t = [list(f) for f in v.elems[a[1]]]
+            t[k][a[3]] = tuple(a[5:5 + L[k].size])
+            v.elems[a[1]] = tuple(tuple(f) for f in t)
+            touched = [a[0]]
+        elif op == "algo":
+            v, v2 = slots.get(a[1]), slots.get(a[5])
+            if v is None or not (0 <= a[2] <= a[3] <= len(v.elems)):
+                raise Invalid("algorithm range")
+            shapes = lambda es: {tuple(len(f) for f in t) for t in es}
+            if a[0] == 0:
+                if not (a[3] <= a[4] <= len(v.elems)) or len(shapes(v.elems[a[2]:a[4]])) > 1:
+                    raise Invalid("rotate range")
+                v.elems[a[2]:a[4]] = v.elems[a[3]:a[4]] + v.elems[a[2]:a[3]]
+            elif a[0] == 1:
+                if not (a[2] <= a[4] <= len(v.elems)) or len(shapes(v.elems[a[2]:a[4]])) > 1:
+                    raise Invalid("reverse range")
+                v.elems[a[2]:a[4]] = v.elems[a[2]:a[4]][::-1]
+            else:
+                n = a[3] - a[2]
+                if v2 is None or not (0 <= a[4] and a[4] + n <= len(v2.elems)):
+                    raise Invalid("swap_ranges range")
+                if a[1] == a[5] and not (a[4] >= a[3] or a[4] + n <= a[2]):
+                    raise Invalid("swap_ranges overlap")
+                if len(shapes(v.elems[a[2]:a[3]] + v2.elems[a[4]:a[4] + n])) > 1:
+                    raise Invalid("swap_ranges shapes")
+                x, y = v.elems[a[2]:a[3]], v2.elems[a[4]:a[4] + n]
+                v.elems[a[2]:a[3]] = y
+                v2.elems[a[4]:a[4] + n] = x
+            touched = [a[1]] + ([a[5]] if a[0] == 2 and a[5] != a[1] else [])
+        elif op == "iter":
+            v = slots.get(a[0])
+            if v is None or not (0 <= a[1] <= len(v.elems)) or not (0 <= a[2] <= len(v.elems)):
+                raise Invalid("iterator position")
         elif op == "cmpvec":
             if slots.get(a[0]) is None or slots.get(a[1]) is None:
                 raise Invalid("comparison of a destroyed vector")
@@ -228,6 +283,8 @@ def parse_obs(lines):
             cur["res"] = int(t[1])
         elif t[0] == "CMP":
             cur["cmp"] = [int(x) for x in t[1:]]
+        elif t[0] == "ITER":
+            cur["iter"] = [int(x) for x in t[1:]]
         elif t[0] == "VEC":
             f = t.index("F")
             vec = {"size": int(t[2]), "cap": int(t[3]), "cons": int(t[4]), "aid": int(t[5]), "bid": int(t[6]),
@@ -269,6 +326,9 @@ MARKER_PROPS = {
     "PATHERR distance": {"C11", "C01"},
     "PATHERR const-data": {"C11"},
     "PATHERR cmp-operand-kind": {"C13", "C14"},
+    "PATHERR const-iterator": {"C11"},
+    "PATHERR iterator-conversion": {"C11"},
+    "UNSUPPORTED": {"C11", "C12"},
 }
 
 
@@ -337,6 +397,43 @@ def oracle_C01(L, K, lines, steps, spec):
                         v.append("step %d %s: element %d field %d reads %s x%d, sequence holds %s x%d" % (
                             i, sp["op"], e, k, hx or "-", cnt, hexof(af) or "-", len(af)))
                         break
+    return v[:5]
+
+
+def content_mismatches(L, steps, spec, ops=None):
+    """every observed vector holds exactly the spec's tuples (all access paths are checked
+    against each other by the harness itself: PATHERR lines)"""
+    v = []
+    for i, (st, sp) in enumerate(zip(steps, spec)):
+        if ops is not None and sp["op"] not in ops:
+            continue
+        for s, ov in st["vecs"].items():
+            av = sp["slots"].get(s)
+            if av is None or getattr(av, "moved_elems", False):
+                continue
+            if ov["size"] != len(av.elems):
+                v.append("step %d %s: size() = %d, sequence has %d elements" % (i, sp["op"], ov["size"], len(av.elems)))
+                continue
+            for e, (oe, ae) in enumerate(zip(ov["elems"], av.elems)):
+                for k, ((off, cnt, hx), af) in enumerate(zip(oe["fields"], ae)):
+                    if cnt != len(af) or hx != hexof(af):
+                        v.append("step %d %s: slot %d element %d field %d reads %s x%d, expected %s x%d" % (
+                            i, sp["op"], s, e, k, hx or "-", cnt, hexof(af) or "-", len(af)))
+                        break
+    return v
+
+
+def oracle_C11(L, K, lines, steps, spec):
+    v = content_mismatches(L, steps, spec)
+    for i, (st, sp) in enumerate(zip(steps, spec)):
+        if sp["op"] == "iter" and "iter" in st:
+            a = sp["args"]
+            n = len(sp["slots"][a[0]].elems)
+            ii, j = a[1], a[2]
+            exp = [ii - j, int(ii == j), int(ii != j), int(ii < j), int(ii <= j), int(ii > j), int(ii >= j), j, ii,
+                   ii + 1, ii, ii, n, 0]
+            if st["iter"] != exp:
+                v.append("step %d iter %d %d: iterator expressions give %r, index arithmetic gives %r" % (i, ii, j, st["iter"], exp))
     return v[:5]
 
 
